@@ -125,7 +125,7 @@ def plan_for(prop, tier, seed):
         if e_method:
             L = 2 if q else 3
             P.add(bw("find_reset", suffix="_e"), "E:m=%s,L=%d" % (e_method, L))
-            P.add(cw("w123", suffix="_e"), "E:m=%s,L=%d" % (e_method, L))
+            P.add(cw("w123", suffix="_e"), "E:m=%s,L=2" % e_method)
             if not q:
                 # overlapping with output chains of 3: L = 3 needs > 24 GB, keep L = 2 there
                 Lu = 2 if e_method == "ovl" else L
@@ -272,7 +272,6 @@ def plan_for(prop, tier, seed):
                 P.add(cw("greek", suffix="_e" + m), "E:m=%s,L=2" % m)
             P.add(cw("thai", "longest", suffix="_e"), "E:m=lm,L=2")
             P.add(cw("w123", "first", suffix="_e"), "E:m=lm,L=2")
-            P.add(cw("astral", suffix="_eovl"), "E:m=ovl,L=2")
         if not q:
             P.hand += ["u_map::new_bijective"]
         P.hand += ["u_utf8::two_chars", "u_utf8::three_chars_offsets", "i_cw::step_overlapping",
